@@ -271,6 +271,9 @@ UNITS = {
                       'PROGRAM prog\nVAR_EXTERNAL CONSTANT\n  g : INT;\nEND_VAR\nEND_PROGRAM\n'],
     'configuration_external_not_constant': ['CONFIGURATION cfg\n  VAR_GLOBAL CONSTANT\n    g : INT := 1;\n  END_VAR\n  RESOURCE res ON PLC\n    TASK tsk(INTERVAL := T#100ms, PRIORITY := 1);\n    PROGRAM inst WITH tsk : prog;\n  END_RESOURCE\nEND_CONFIGURATION\n',
                       'PROGRAM prog\nVAR_EXTERNAL\n  g : INT;\nEND_VAR\nEND_PROGRAM\n'],
+    'two_configurations_external_not_constant': ['CONFIGURATION cfga\n  VAR_GLOBAL CONSTANT\n    g : INT := 1;\n  END_VAR\n  RESOURCE ra ON PLC\n    TASK ta(INTERVAL := T#100ms, PRIORITY := 1);\n    PROGRAM ia WITH ta : prog;\n  END_RESOURCE\nEND_CONFIGURATION\n',
+                      'CONFIGURATION cfgb\n  VAR_GLOBAL\n    h : INT := 2;\n  END_VAR\n  RESOURCE rb ON PLC\n    TASK tb(INTERVAL := T#100ms, PRIORITY := 1);\n    PROGRAM ib WITH tb : prog;\n  END_RESOURCE\nEND_CONFIGURATION\n',
+                      'PROGRAM prog\nVAR_EXTERNAL\n  g : INT;\nEND_VAR\nEND_PROGRAM\n'],
     'subrange_user': ['TYPE\n  rng : INT(1..10);\nEND_TYPE\n', 'FUNCTION_BLOCK fb\nVAR\n  r : rng;\nEND_VAR\nEND_FUNCTION_BLOCK\n'],
     'duplicate_struct_element': ['TYPE\n  rec : STRUCT\n    a : INT;\n    a : BOOL;\n  END_STRUCT;\nEND_TYPE\n', _E],
     'undeclared_variable': ['FUNCTION_BLOCK one\nVAR\n  a : INT;\nEND_VAR\n  a := 1;\nEND_FUNCTION_BLOCK\n', 'FUNCTION_BLOCK two\nVAR\n  b : INT;\nEND_VAR\n  a := 2;\nEND_FUNCTION_BLOCK\n'],
